@@ -512,6 +512,10 @@ func runC01(c *CaseCtx) *CaseResult {
 		res, _ := runDeepCase(c, "array", rand.New(rand.NewSource(c.CaseSeed()^0xdee9)))
 		return res
 	}
+	if c.Case%43 == 41 {
+		// a tree of three or more levels that collapses (and regrows) through overwrites alone
+		return runDeflateCase(c, "array", rand.New(rand.NewSource(c.CaseSeed()^0xdef1)))
+	}
 	cc := basicCase(c, "array")
 	if c.Case%11 == 10 {
 		// drain with bulk pop and regrow
@@ -535,6 +539,9 @@ func runC02(c *CaseCtx) *CaseResult {
 		res, w := runDeepCase(c, "map", rand.New(rand.NewSource(c.CaseSeed()^0xdee9)))
 		res.NonTrivial = res.NonTrivial && w.stats.Extra["absent-get"]+w.stats.Extra["absent-has"] > 0
 		return res
+	}
+	if c.Case%43 == 41 {
+		return runDeflateCase(c, "map", rand.New(rand.NewSource(c.CaseSeed()^0xdef1)))
 	}
 	cc := basicCase(c, "map")
 	r := rand.New(rand.NewSource(c.CaseSeed() ^ 0xd16))
